@@ -123,7 +123,24 @@ def plain(x):
     return a
 
 
-def close(got, want, scale=None):
+def mnorm(a):
+    """max(row sum, column sum) of |a|: sub-multiplicative, bounds every entry of a product"""
+    a = np.abs(np.asarray(a))
+    return float(max(a.sum(axis=-1).max(), a.sum(axis=-2).max())) if a.size else 0.0
+
+
+def word_slack(w, norms):
+    """floating-point allowance for a product along w: a few ulps of the magnitude of the intermediate
+    products (inverses of integer matrices are stored as rounded floats); 0 when norms is None"""
+    if norms is None:
+        return 0.0
+    p = 1.0
+    for l in w:
+        p *= max(1.0, norms[l])
+    return 1e-14 * max(1, len(w)) * p
+
+
+def close(got, want, scale=None, slack=0.0):
     got = plain(got)
     want = np.asarray(want)
     if got.shape != want.shape:
@@ -133,6 +150,7 @@ def close(got, want, scale=None):
     tol = 1e-9 * max(1.0, float(np.abs(want).max()))
     if scale is not None:
         tol *= scale
+    tol += slack
     return bool(np.all(np.abs(got - want) <= tol)) and bool(np.all(np.isfinite(got)))
 
 
@@ -205,9 +223,18 @@ def _first(x):
     return np.asarray(x)[0]
 
 
-def words_check(rep, mode, table, what="image", all_forms=True, cmp=close):
+def norms_of(gens):
+    return {l: mnorm(m) for l, m in gens.items()}
+
+
+def words_check(rep, mode, table, what="image", all_forms=True, cmp=None, norms=None):
     """table: list of (word tuple, ndarray).  Returns None or (clause, detail)."""
     for w, want in table:
+        if cmp is None:
+            slack = word_slack(w, norms)
+            cmp_w = lambda g, x, slack=slack: close(g, x, slack=slack)
+        else:
+            cmp_w = cmp
         forms = word_forms(rep, mode, w)
         if not all_forms:
             forms = forms[:1]
@@ -216,6 +243,6 @@ def words_check(rep, mode, table, what="image", all_forms=True, cmp=close):
                 got = f()
             except Exception as e:
                 return ("raised:" + what, "%s raised %s: %s (specified %r)" % (fname, type(e).__name__, e, show(want)))
-            if not cmp(got, want):
+            if not cmp_w(got, want):
                 return (what, "%s = %r, specified %r" % (fname, show(got), show(want)))
     return None
